@@ -12,6 +12,12 @@ return_when=FIRST_COMPLETED.  Programs may be @time_trigger("shutdown") function
 other runs are over, by ONE unload of the config entry / reload of the script by name / reload after touching or
 deleting the file (several shutdown runs, some of which suspend).  A creator run may give its task.create child a done
 callback and cancel it right away (before the child's first step) or a few loop passes later, then wait for it.
+Callbacks may suspend in task.sleep() or in a blocking call of a pyscript service; 2..4 programs may share one such
+callback function (own arguments each) that stays suspended long enough for the callback phases of these tasks to
+overlap.  A callback may edit the callback set of its own task while the callbacks run (remove a function that has
+run / has not run yet / itself / was never added; add a new one).  A run may give ANOTHER run's task a done callback
+(add_cb_to), whatever that task is doing then: not started, running, in its done callbacks, finished.  In the
+fresh-lookup mode the method of one instance may be registered again and removed (each time a new lookup).
 
 Fault enumeration: the scenario is run once fault-free; then it is re-run with ONE cancellation of
 the victim task placed at every loop pass of the victim's life (capped in the quick tier), through
@@ -28,7 +34,10 @@ has a task of its own (no two programs share task.current_task()); the shutdown 
 given in exactly one of done / pending (a task finished before the call is done; without timeout/return_when all are
 done) and result()/cancelled() of each done task is that run's outcome; a done callback reads the same arguments
 after a suspension of its own; every task.executor call that delivered went through the loop's executor; the
-creator's task.cancel(child) does not raise, the child ends cancelled, its callback runs exactly once.
+creator's task.cancel(child) does not raise, the child ends cancelled, its callback runs exactly once.  A callback
+removed (by the run or by an earlier callback) before it ran does not run; one added while the task is not done yet
+(by a callback of the task or by another run) runs exactly once; the task of a function that returned has no
+exception; nothing is kept for a task that was given a callback after it had finished.
 """
 
 from __future__ import annotations
@@ -48,7 +57,13 @@ RULE = (
     "siblings spawned in one go, task.wait on a set of 1..4 tasks arriving 4 passes / 0.3 / 0.8 / 1.5 s after the "
     "victim started with no / timeout= / return_when= argument, 30 %: 1-3 non-victim programs are "
     "@time_trigger('shutdown') functions started together by unload / reload by name / touch+reload / delete+reload, "
-    "16 %: a creator run cancelling its task.create child 0 / 1 / 3 passes after creating it; steer coins keep, in "
+    "16 %: a creator run cancelling its task.create child 0 / 1 / 3 passes after creating it; per scenario share of "
+    "sleeping callbacks that suspend in a blocking service call instead (0 / 0.5) and of registrations that are a "
+    "callback editing its own task's callback set with 1-2 remove/add operations (0 / 0.15 / 0.35); 25 % of the "
+    "scenarios with >= 2 runs: 2..n programs register the same suspending callback first thing and it stays "
+    "suspended 0.6-1.5 s (overlapping callback phases), in half of these another run gives one of those tasks a "
+    "further callback at its end; 25 %: 1-2 add_done_callback calls on another run's task at a random step; "
+    "fresh-lookup scenarios: half of them re-register / remove the method of one instance; steer coins keep, in "
     "half of the scenarios each, done callbacks and task.cancel() out of shutdown runs, sleeping callbacks to one "
     "program, and the creator's cancel after the child's start); per scenario one fault-free run plus one run per "
     "cancellation point = every loop pass between the victim's start and its end (+2), capped at 40 evenly spread "
@@ -60,11 +75,27 @@ ASSUMPTIONS = [
     "a cancellation that lands while the victim is already running its done callbacks: callbacks after the "
     "interrupted one are don't-care, registry clean-up is still required",
     "timing of bystanders may shift by a few loop passes (slack 50 ms)",
-    "a bound method looked up twice on the SAME instance gives two wrapper objects in pyscript; whether those count "
-    "as 'the same callback function' (replace / remove) is left open by the documentation, so in the 'fresh lookup' "
-    "mode a method of one instance is registered at most once per task and never removed; in the 'bound once' mode "
-    "(the wrapper is kept in a variable) replace and remove are exercised and judged. The same method on two "
-    "DIFFERENT instances are always two callback functions",
+    "the method of one instance is ONE callback function however often it is looked up (inst.method == inst.method in "
+    "Python, dicts/sets and asyncio's remove_done_callback treat two lookups as the same callable; the documentation "
+    "speaks of 'the same func argument'): adding inst.on_done again replaces the arguments, remove_done_callback(t, "
+    "inst.on_done) removes it. Violations of this are reported as C14.bound_method_not_one_function (finding on the "
+    "unchanged code: pyscript's bound-method wrapper compares by identity); the steer coin spec.fresh_repeat keeps "
+    "repeated registration / removal out of half of the fresh-lookup scenarios. The same method on two DIFFERENT "
+    "instances are always two callback functions",
+    "editing a task's callback set while its callbacks run (the task is not done yet): remove_done_callback of a "
+    "function that has not run yet means it 'will no longer occur' (reference); of one that has already run or of "
+    "the running callback itself: no effect; add_done_callback of a new function: it 'is called when the task "
+    "completes', exactly once; every other callback still runs exactly once and the task keeps its result. Not "
+    "generated (open): re-adding a function that has already run in this callback phase; for a callback another run "
+    "adds when cb_foreign has already run in the target's phase, 1..2 runs are accepted",
+    "task.add_done_callback on a task that has ALREADY finished: whether the callback is called is not documented "
+    "(don't-care, never counted); required is only that pyscript's registries keep nothing for the finished task "
+    "[C14.callback_kept_for_finished_task]; task.remove_done_callback on a finished task is not generated",
+    "a violation that names its construct (C14.callback_set_edited_while_running, C14.callback_kept_for_finished_task, "
+    "C14.bound_method_not_one_function) stands for the whole execution: other violations of the same execution may be "
+    "consequences (exception reaching HA, what a waiter saw) and are not reported next to it",
+    "order in which the callbacks of one task run is not documented: 'has run / has not run yet' is taken from the "
+    "observed markers, never from a modelled order",
     "task.sleep(d) with d <= 0 is a suspension point of one loop pass (what asyncio.sleep does), never a no-op: the "
     "markers before and after it must lie in different loop passes",
     "ready-run rule: a run whose task existed but had not started when another run executed the marker in front of "
@@ -83,7 +114,8 @@ ASSUMPTIONS = [
     "legacy shutdown run + task.add_done_callback(task.current_task()) [C14.done_callback_rejected]; legacy shutdown "
     "run + task.cancel() [C14.shutdown_never_returned]; two tasks whose sleeping done callbacks overlap "
     "[C14.callback_args when=after_its_suspension]; task.cancel(child) before the child's first step "
-    "[C14.cancel_rejected]",
+    "[C14.cancel_rejected]; a method of one instance looked up afresh and registered again / removed "
+    "[C14.bound_method_not_one_function]",
 ]
 TIERS = {
     "quick": {"runs": 200, "chunk": 7, "max_points": 40, "chunk_timeout": 900},
@@ -97,13 +129,25 @@ REACH_PROBES = ["cancel_landed", "cancel_in_done_callback", "cancel_during_execu
                 "ready_run_while_other_sleeps", "ready_run_while_other_sleeps0",
                 "wait_on_task_set", "wait_some_already_finished", "wait_all_already_finished", "wait_with_timeout",
                 "wait_first_completed", "shutdown_run", "shutdown_runs_together", "executor_call",
-                "child_cancelled_before_first_step", "child_cancelled_after_start"]
+                "child_cancelled_before_first_step", "child_cancelled_after_start",
+                "shared_sleeping_callback_overlaps", "shared_service_calling_callback_overlaps",
+                "callback_edits_own_task", "callback_removes_pending_callback", "callback_removes_finished_callback",
+                "callback_removes_itself", "callback_adds_callback",
+                "callback_added_by_other_task", "callback_added_by_other_task_during_callbacks",
+                "callback_added_to_finished_task", "bound_method_fresh_lookup_repeated"]
 # probes that only fire together with the violation they describe (C14-F3, repaired): not "reach"
 SYMPTOM_PROBES = ["raising_callback_then_other"]
 SHRINK_LISTS = [["spec", "progs"], ["spec", "progs", "*", "steps"]]
 GRID = 0.25
 CB_KINDS = ["plain", "sleep", "raise"]
 METHOD_KINDS = ["m0", "m1", "m2"]  # Watcher.on_done bound to watchers[0..2]
+# callbacks that suspend and read their argument afterwards: task.sleep() / a blocking call of a pyscript service
+SUSP_CB = ("sleep", "svc")
+# "edit": a callback that removes / adds done callbacks of its own task while that task's callbacks are running
+# (cb_late is only ever registered that way); cb_foreign is only ever registered by ANOTHER run (add_cb_to steps)
+ALL_CB_KINDS = CB_KINDS + ["svc", "edit"] + METHOD_KINDS
+CB_DUR = 0.3  # how long cb_sleep / cb_svc stay suspended unless the scenario says otherwise (spec["cb_dur"])
+RUN_HORIZON = 8.0  # all runs of the main phase are over by then
 ZERO_DURS = [0, 0, -1, -0.25]  # task.sleep() durations that ask for "just let the others run"
 SPIN_DURS = [0, 0, -1, 0.001]
 SUSPENDING = ("sleep", "spin", "wait_until", "call_svc")
@@ -120,12 +164,27 @@ def _gen_steps(rng: random.Random, victim: bool, knobs: dict | None = None) -> l
     p_method = knobs.get("p_method", 0.0)
     p_zero = knobs.get("p_zero", 0.0)
     fresh = knobs.get("method_lookup") == "fresh"
+    once = fresh and not knobs.get("fresh_repeat")  # fresh lookups: at most one registration per instance, no removal
     steps = []
     cb_added = []
 
     def add_cb(kind):
+        if kind == "sleep" and rng.random() < knobs.get("p_svc", 0.0):
+            kind = "svc"  # the other way of suspending: a blocking call of a service of the script
         steps.append(["add_cb", kind, rng.randint(1, 99)])
         cb_added.append(kind)
+
+    def add_edit():
+        # a callback that edits the callback set of its own task while it runs: removes some function (one that
+        # ran before it, one that has not run yet, itself, one that was never added) and/or adds a new one
+        ops = []
+        for _ in range(rng.choice([1, 1, 2])):
+            if rng.random() < 0.65:
+                ops.append(["remove", rng.choice([k for k in ALL_CB_KINDS if not (once and k in METHOD_KINDS)])])
+            else:
+                ops.append(["add", "late", rng.randint(200, 299)])
+        steps.append(["add_cb", "edit", rng.randint(1, 99), ops])
+        cb_added.append("edit")
 
     for _ in range(rng.randint(2, 7)):
         roll = rng.random()
@@ -137,9 +196,16 @@ def _gen_steps(rng: random.Random, victim: bool, knobs: dict | None = None) -> l
         elif roll < 0.42:
             steps.append(["executor", rng.choice(["ok", "raise"])])
         elif roll < 0.62:
+            if rng.random() < knobs.get("p_edit", 0.0):
+                add_edit()
+                continue
             if rng.random() < p_method:
-                # fresh-lookup mode: one registration per instance (see ASSUMPTIONS)
-                pool = [k for k in METHOD_KINDS if not (fresh and k in cb_added)]
+                # fresh-lookup mode, steered: one registration per instance (see ASSUMPTIONS)
+                pool = [k for k in METHOD_KINDS if not (once and k in cb_added)]
+                again = [k for k in METHOD_KINDS if k in cb_added and not once]
+                if again and rng.random() < 0.4:
+                    add_cb(rng.choice(again))  # the same instance's method once more: replaces (new arguments)
+                    continue
                 if pool:
                     add_cb(rng.choice(pool))
                     pool = [k for k in METHOD_KINDS if k not in cb_added]
@@ -148,7 +214,7 @@ def _gen_steps(rng: random.Random, victim: bool, knobs: dict | None = None) -> l
                     continue
             add_cb(rng.choice(CB_KINDS))
         elif roll < 0.68 and cb_added:
-            pool = [k for k in cb_added if not (fresh and k in METHOD_KINDS)]
+            pool = [k for k in cb_added if not (once and k in METHOD_KINDS)]
             if pool:
                 steps.append(["remove_cb", rng.choice(pool)])
         elif roll < 0.76:
@@ -167,7 +233,33 @@ def _gen_steps(rng: random.Random, victim: bool, knobs: dict | None = None) -> l
             steps.append(["spin", rng.randint(2, 4), rng.choice(SPIN_DURS)])
     if not any(s[0] in ("wait_until", "call_svc") or (s[0] == "sleep" and s[1] > 0) for s in steps):
         steps.insert(rng.randint(0, len(steps)), ["sleep", 0.3])
+    # most removals by an editing callback aim at a function this program does register (before or after it)
+    registered = sorted({s[1] for s in steps if s[0] == "add_cb" and not (once and s[1] in METHOD_KINDS)})
+    for si, step in enumerate(steps):
+        if step[0] == "add_cb" and step[1] == "edit":
+            early = {s[1] for s in steps[:si] if s[0] == "add_cb"} | {"edit"}
+            later = [k for k in registered if k not in early]  # (registered after it: run after it)
+            for op in step[3]:
+                if op[0] == "remove" and rng.random() < 0.7:
+                    op[1] = rng.choice(later if later and rng.random() < 0.6 else registered)
     return steps
+
+
+def _dur_bound(prog: dict, cb_dur: float) -> float:
+    """Upper bound of the virtual time at which a run of the program is over (relative to the scenario's start)."""
+    total = 0.5 + prog["k"] * GRID + 0.2
+    for step in prog["steps"]:
+        if step[0] == "sleep":
+            total += max(step[1], 0.0)
+        elif step[0] == "spin":
+            total += step[1] * max(step[2], 0.0)
+        elif step[0] in ("wait_until", "call_svc"):
+            total += step[1]
+        elif step[0] == "executor":
+            total += 0.1
+    # its done callbacks run one after the other (an upper bound: every registration counted)
+    total += sum(cb_dur + 0.05 for step in prog["steps"] if step[0] == "add_cb" and step[1] in SUSP_CB)
+    return total
 
 
 def gen(rng: random.Random, tier: str) -> dict:
@@ -177,14 +269,21 @@ def gen(rng: random.Random, tier: str) -> dict:
     victim = rng.randrange(n)
     # swarm knobs: which of the rarer constructs this scenario uses, and how densely
     knobs = {"p_method": rng.choice([0.0, 0.5, 0.7]), "method_lookup": rng.choice(["bound", "fresh"]),
-             "p_zero": rng.choice([0.0, 0.3, 0.6]), "p_spin": rng.choice([0.0, 0.04, 0.07])}
+             "p_zero": rng.choice([0.0, 0.3, 0.6]), "p_spin": rng.choice([0.0, 0.04, 0.07]),
+             # share of sleeping callbacks that suspend in a blocking service call instead; share of registrations
+             # that are a callback editing its own task's callback set while it runs
+             "p_svc": rng.choice([0.0, 0.0, 0.5]), "p_edit": rng.choice([0.0, 0.0, 0.15, 0.35]),
+             # steer coin (finding on the unchanged code, see ASSUMPTIONS): fresh lookups of one instance's method
+             # are registered again / removed only in half of the fresh-lookup scenarios
+             "fresh_repeat": rng.random() < 0.5}
     progs = []
     for tid in range(n):
         progs.append({"tid": tid, "entry": rng.choice(["service", "service", "trigger", "create"]),
                       "steps": _gen_steps(rng, tid == victim, knobs), "ret": rng.randint(100, 199),
                       "k": rng.choice([0, 0, 1, 2])})
     spec = {"progs": progs, "victim": victim, "waiter": rng.random() < 0.5,
-            "method_lookup": knobs["method_lookup"], "spawn_group": rng.random() < 0.5}
+            "method_lookup": knobs["method_lookup"], "spawn_group": rng.random() < 0.5,
+            "fresh_repeat": knobs["fresh_repeat"]}
     if n >= 2 and rng.random() < 0.3:
         # siblings: two task.create children made by one spawner run in one go; the first-created one gives way
         # (sleep / spin with a zero or negative duration) before anything else
@@ -228,6 +327,7 @@ def gen(rng: random.Random, tier: str) -> dict:
             progs[tid]["entry"] = "shutdown"
             # the script's own services are gone by the time a shutdown run executes: no blocking service call
             steps = [["sleep", s[1]] if s[0] == "call_svc" else s for s in progs[tid]["steps"]]
+            steps = [[s[0], "sleep"] + s[2:] if s[0] in ("add_cb", "remove_cb") and s[1] == "svc" else s for s in steps]
             if spec["steer_sd_cb"]:
                 steps = [s for s in steps if s[0] not in ("add_cb", "remove_cb")]
             if spec["steer_sd_cancel"]:
@@ -247,6 +347,31 @@ def gen(rng: random.Random, tier: str) -> dict:
                     continue
                 prog["steps"] = [[s[0], "plain"] + s[2:] if s[0] in ("add_cb", "remove_cb") and s[1] == "sleep" else s
                                  for s in prog["steps"]]
+    # one callback function shared by several tasks whose callback phases overlap: 2..n programs register the same
+    # suspending callback (own arguments each) first thing, and the callback stays suspended long enough for the
+    # other runs to end meanwhile (as long as every run is still over in time)
+    main = [p for p in progs if p["entry"] != "shutdown"]
+    if len(main) >= 2 and rng.random() < 0.25:
+        kind = rng.choice(SUSP_CB)
+        for prog in rng.sample(main, rng.randint(2, len(main))):
+            prog["steps"].insert(rng.choice([0, 0, 1]), ["add_cb", kind, rng.randint(1, 99)])
+        for dur in (rng.choice([0.9, 1.5]), 0.6):
+            if all(_dur_bound(p, dur) <= RUN_HORIZON - 0.7 for p in main):
+                spec["cb_dur"] = dur
+                break
+        if rng.random() < 0.5:
+            # ... and one of these tasks is given a further callback by another run, late in that run
+            adder, target = rng.sample(main, 2)
+            if any(s[0] == "add_cb" and s[1] == kind for s in target["steps"]) and not any(
+                    s[0] in ("raise", "cancel_self") for s in adder["steps"]):
+                adder["steps"].append(["add_cb_to", target["tid"], rng.randint(300, 399)])
+    # a run that gives ANOTHER run's task a done callback: whatever that task is doing at that moment (not started,
+    # running, in its done callbacks, finished)
+    if len(progs) >= 2 and rng.random() < 0.25:
+        for _ in range(rng.choice([1, 1, 2])):
+            adder, target = rng.sample(progs, 2)
+            stop = next((i for i, s in enumerate(adder["steps"]) if s[0] in ("raise", "cancel_self")), len(adder["steps"]))
+            adder["steps"].insert(rng.randint(0, stop), ["add_cb_to", target["tid"], rng.randint(300, 399)])
     # a creator run that gives its task.create child a done callback and cancels it: right away (the child has not
     # executed a single step yet) or some loop passes later; then waits for it
     spec["kid"] = None
@@ -258,14 +383,27 @@ def gen(rng: random.Random, tier: str) -> dict:
 
 
 # ------------------------------------------------------------------ rendering
+def _cb_kinds_used(scn: dict) -> set:
+    kinds = set()
+    for prog in scn["spec"]["progs"]:
+        for step in prog["steps"]:
+            if step[0] in ("add_cb", "remove_cb"):
+                kinds.add(step[1])
+                if step[1] == "edit" and step[0] == "add_cb" and len(step) > 3:
+                    kinds.update(op[1] for op in step[3])
+    return kinds
+
+
 def render(scn: dict) -> dict:
+    cb_dur = scn["spec"].get("cb_dur") or CB_DUR
+    used = _cb_kinds_used(scn)
     lines = [
         "def cb_plain(tag):",
         "    sim.mark('cb', 'plain', tag, 'start')",
         "",
         "def cb_sleep(tag):",
         "    sim.mark('cb', 'sleep', tag, 'start')",
-        "    task.sleep(0.3)",
+        f"    task.sleep({cb_dur})",
         "    sim.mark('cb', 'sleep', tag, 'end')",
         "",
         "def cb_raise(tag):",
@@ -273,8 +411,22 @@ def render(scn: dict) -> dict:
         "    raise ValueError('cb boom')",
         "",
     ]
+    if "svc" in used:
+        lines += [
+            "def cb_svc(tag):",
+            "    sim.mark('cb', 'svc', tag, 'start')",
+            f"    pyscript.helper_svc(blocking=True, d={cb_dur}, who=-1)",
+            "    sim.mark('cb', 'svc', tag, 'end')",
+            "",
+        ]
+    if any(s[0] == "add_cb_to" for p in scn["spec"]["progs"] for s in p["steps"]):
+        lines += [
+            "def cb_foreign(tag):",
+            "    sim.mark('cb', 'foreign', tag, 'start')",
+            "",
+        ]
     fresh = scn["spec"].get("method_lookup") == "fresh"
-    if any(s[0] in ("add_cb", "remove_cb") and s[1] in METHOD_KINDS for p in scn["spec"]["progs"] for s in p["steps"]):
+    if used & set(METHOD_KINDS):
         # an observer list: one method, several instances; every bound method is a callback function of its own
         lines += [
             "class Watcher:",
@@ -292,6 +444,31 @@ def render(scn: dict) -> dict:
         if kind in METHOD_KINDS and fresh:
             return f"watchers[{METHOD_KINDS.index(kind)}].on_done"
         return f"cb_{kind}"
+
+    if "edit" in used:
+        # a callback that edits the done callbacks of its own (ending) task
+        lines += [
+            "def cb_late(tag):",
+            "    sim.mark('cb', 'late', tag, 'start')",
+            "",
+            "def cb_fn(kind):",
+        ]
+        for kind in sorted(used - {"late"}):
+            lines += [f"    if kind == {kind!r}:", f"        return {cb_expr(kind)}"]
+        lines += [
+            "    return cb_late",
+            "",
+            "def cb_edit(tag, ops):",
+            "    sim.mark('cb', 'edit', tag, 'start')",
+            "    me = task.current_task()",
+            "    for op in ops:",
+            "        if op[0] == 'remove':",
+            "            task.remove_done_callback(me, cb_fn(op[1]))",
+            "        else:",
+            "            task.add_done_callback(me, cb_late, op[2])",
+            "    sim.mark('cb', 'edit', tag, 'end')",
+            "",
+        ]
 
     for prog in scn["spec"]["progs"]:
         tid = prog["tid"]
@@ -322,7 +499,19 @@ def render(scn: dict) -> dict:
                     lines.append("    except KeyError as exc:")
                     lines.append(f"        sim.mark('p', {tid}, 'exec', {idx}, xr=str(exc))")
             elif step[0] == "add_cb":
-                lines.append(f"    task.add_done_callback(task.current_task(), {cb_expr(step[1])}, {step[2]})")
+                extra = "".join(f", {x!r}" for x in step[3:])
+                lines.append(f"    task.add_done_callback(task.current_task(), {cb_expr(step[1])}, {step[2]}{extra})")
+            elif step[0] == "add_cb_to":
+                # a done callback for the task of another run, whatever state that task is in
+                lines.append(f"    ft = sim.get('task_of')({step[1]})")
+                lines.append("    if ft is None:")
+                lines.append(f"        sim.mark('p', {tid}, 'foreign', {idx}, target={step[1]}, state='notask')")
+                lines.append("    else:")
+                lines.append("        fstate = 'alive'")
+                lines.append("        if ft.done():")
+                lines.append("            fstate = 'done'")
+                lines.append(f"        sim.mark('p', {tid}, 'foreign', {idx}, target={step[1]}, state=fstate)")
+                lines.append(f"        task.add_done_callback(ft, cb_foreign, {step[2]})")
             elif step[0] == "remove_cb":
                 lines.append(f"    task.remove_done_callback(task.current_task(), {cb_expr(step[1])})")
             elif step[0] == "spin":
@@ -434,11 +623,17 @@ def normalize(scn: dict) -> dict | None:
         return None
     if any(p["entry"] == "shutdown" and any(s[0] == "call_svc" for s in p["steps"]) for p in progs):
         return None  # the script's services are gone when a shutdown run executes
-    if scn["spec"].get("method_lookup") == "fresh":
-        # undecided by the documentation (see ASSUMPTIONS): the same instance's method registered twice / removed
+    if any(p["entry"] == "shutdown" and any(s[0] in ("add_cb", "remove_cb") and s[1] == "svc" for s in p["steps"])
+           for p in progs):
+        return None
+    if scn["spec"].get("method_lookup") == "fresh" and not scn["spec"].get("fresh_repeat"):
+        # steered scenarios (see ASSUMPTIONS): the same instance's method is not registered twice / removed
         for prog in progs:
             adds = [s[1] for s in prog["steps"] if s[0] == "add_cb" and s[1] in METHOD_KINDS]
             if len(adds) != len(set(adds)) or any(s[0] == "remove_cb" and s[1] in METHOD_KINDS for s in prog["steps"]):
+                return None
+            if any(op[0] == "remove" and op[1] in METHOD_KINDS for s in prog["steps"]
+                   if s[0] == "add_cb" and s[1] == "edit" for op in s[3]):
                 return None
     return scn
 
@@ -457,6 +652,13 @@ def simplify(scn: dict):
             repl = None
             if step[0] in ("add_cb", "remove_cb") and step[1] in METHOD_KINDS:
                 repl = [step[0], "plain"] + step[2:]
+            elif step[0] in ("add_cb", "remove_cb") and step[1] == "svc":
+                repl = [step[0], "sleep"] + step[2:]
+            elif step[0] == "add_cb" and step[1] == "edit" and len(step[3]) > 1:
+                for oi in range(len(step[3])):
+                    cand = copy.deepcopy(scn)
+                    del cand["spec"]["progs"][pi]["steps"][si][3][oi]
+                    yield cand
             elif step[0] == "sleep" and step[1] <= 0:
                 repl = ["sleep", 0.1]
             elif step[0] == "spin":
@@ -481,6 +683,10 @@ def simplify(scn: dict):
     if scn["spec"].get("kid"):
         cand = copy.deepcopy(scn)
         cand["spec"]["kid"] = None
+        yield cand
+    if scn["spec"].get("cb_dur"):
+        cand = copy.deepcopy(scn)
+        cand["spec"]["cb_dur"] = None
         yield cand
     if (scn["spec"].get("shutdown_via") or "unload") != "unload":
         cand = copy.deepcopy(scn)
@@ -860,6 +1066,28 @@ def _judge_wait_set(spec: dict, obs: dict, progs: dict, rep: dict, viol, w) -> b
     return bool(kw) and vic in where and bool(where[vic][1]) and not where[vic][0]
 
 
+PRIMARY_CLASSES = ("C14.callback_set_edited_while_running", "C14.callback_kept_for_finished_task",
+                   "C14.bound_method_not_one_function")
+
+
+def _overlap_probes(obs: dict, w) -> None:
+    """Reach: the same suspending callback function is in progress in two different tasks at the same time."""
+    open_: dict = {}
+    seen = set()
+    for m in obs["marks"]:
+        if m["args"][0] != "cb" or m["args"][1] not in SUSP_CB:
+            continue
+        key = (m["args"][1], m["task"])
+        if m["args"][3] == "start":
+            if any(k[0] == key[0] and k[1] != key[1] for k in open_):
+                seen.add(key[0])
+            open_[key] = True
+        elif m["args"][3] == "end":
+            open_.pop(key, None)
+    for kind in sorted(seen):
+        w.probe("shared_sleeping_callback_overlaps" if kind == "sleep" else "shared_service_calling_callback_overlaps")
+
+
 def judge(scn: dict, obs: dict, base: dict | None, sub: str) -> list:
     """Violations of one execution (base=None: the fault-free run itself)."""
     spec = scn["spec"]
@@ -877,7 +1105,22 @@ def judge(scn: dict, obs: dict, base: dict | None, sub: str) -> list:
                     "t": 0.0})
 
     # ---- registries
+    start_label = {}
+    for m in obs["marks"]:
+        if m["args"][:1] == ["p"] and m["args"][2:3] == ["start"]:
+            start_label.setdefault(m["args"][1], m["task"])
+    # tasks that were given a done callback by another run when they had already finished: label -> program
+    finished_targets = {start_label[m["kw"]["target"]]: m["kw"]["target"] for m in obs["marks"]
+                        if m["args"][0] == "p" and m["args"][2] == "foreign" and m["kw"].get("state") == "done"
+                        and m["kw"].get("target") in start_label}
     for key, val in obs["registries"].items():
+        late = [x for x in val if key == "task2cb_finished" and x in finished_targets]
+        if late:
+            viol("C14.callback_kept_for_finished_task", {"registry": "task2cb"},
+                 f"task.add_done_callback(task_id, ...) on the already finished tasks of programs "
+                 f"{sorted(finished_targets[x] for x in late)}: Function.task2cb still holds these tasks (and the "
+                 f"callback with its arguments) at final quiescence: {key} = {val}")
+        val = [x for x in val if x not in late]
         if val:
             viol("C14.registry_leak", {"registry": key.replace("_finished", ""),
                                        "cancel_in": point["where"] if landed else "none"},
@@ -927,12 +1170,12 @@ def judge(scn: dict, obs: dict, base: dict | None, sub: str) -> list:
             exp_posts = len(steps) if natural_stop is None else natural_stop
             stuck = next((steps[nm[1]] for nm in names if nm[0] == "pre" and nm[1] < len(steps)
                           and ("post", nm[1]) not in names), None)
-            if stuck is not None and stuck[0] in ("add_cb", "remove_cb") and not (tid == vic and cancel):
+            if stuck is not None and stuck[0] in ("add_cb", "remove_cb", "add_cb_to") and not (tid == vic and cancel):
                 # these steps do not suspend: the run can only have stopped here because the call itself raised
                 viol("C14.done_callback_rejected", {"entry": prog["entry"], "op": stuck[0]},
-                     f"p{tid} ({prog['entry']}) stopped in step {stuck}: task.{'add' if stuck[0] == 'add_cb' else 'remove'}"
-                     f"_done_callback(task.current_task(), ...) raised, so the run's done callbacks cannot be "
-                     f"registered; completed {n_done_steps}/{exp_posts} steps")
+                     f"p{tid} ({prog['entry']}) stopped in step {stuck}: task.{'remove' if stuck[0] == 'remove_cb' else 'add'}"
+                     f"_done_callback({'another task' if stuck[0] == 'add_cb_to' else 'task.current_task()'}, ...) "
+                     f"raised, so the done callbacks cannot be registered; completed {n_done_steps}/{exp_posts} steps")
             elif n_done_steps != exp_posts or ended != (natural_stop is None):
                 viol("C14.bystander_disturbed" if base is not None else "C14.run_incomplete",
                      {"entry": prog["entry"]},
@@ -961,8 +1204,9 @@ def judge(scn: dict, obs: dict, base: dict | None, sub: str) -> list:
                      f"normally; markers {names}")
         # ---- callbacks: exactly once each, right arguments
         label = next((m["task"] for m in obs["marks"] if m["args"][:3] == ["p", tid, "start"]), None)
-        cbs = _cb_marks(obs, label)
-        started = [(m["args"][1], m["args"][2]) for m in cbs if m["args"][3] == "start"]
+        cbs_at = [(gi, m) for gi, m in enumerate(obs["marks"]) if m["args"][0] == "cb" and m["task"] == label]
+        cbs = [m for _, m in cbs_at]
+        started = [(m["args"][1], m["args"][2]) for m in cbs if m["args"][3] == "start" and m["args"][1] != "foreign"]
         # registrations executed: every add/remove step whose 'post' marker exists
         n_exec = 0
         for idx, step in enumerate(steps):
@@ -972,13 +1216,12 @@ def judge(scn: dict, obs: dict, base: dict | None, sub: str) -> list:
                 n_exec = idx  # pre seen but post missing: cannot happen for these steps (no suspension)
         exp = _expected_callbacks(steps, n_exec)
         # the cancellation may be *delivered* (reaper: one pass later) when the body has already ended and a
-        # sleeping done callback is running: then it interrupts that callback
-        interrupted_cb = any(m["args"][1] == "sleep" and m["args"][3] == "start" and not any(
-            e["args"][1:4] == ["sleep", m["args"][2], "end"] for e in cbs) for m in cbs)
+        # suspending done callback is running: then it interrupts that callback
+        interrupted_cb = any(m["args"][1] in SUSP_CB and m["args"][3] == "start" and not any(
+            e["args"][1:4] == [m["args"][1], m["args"][2], "end"] for e in cbs) for m in cbs)
         cancel_in_cb = is_victim and (cancel["in_cb"] or interrupted_cb)
         if tid == vic:
             vic_cancel_in_cb = cancel_in_cb
-        got_kinds = [k for k, _ in started]
         if any(s[0] == "remove_cb" for s in steps[:n_exec]):
             w.probe("callback_removed")
         if sum(1 for k in exp if k in METHOD_KINDS) >= 2:
@@ -986,36 +1229,157 @@ def judge(scn: dict, obs: dict, base: dict | None, sub: str) -> list:
         meth_ops = [s[1] for s in steps[:n_exec] if s[0] in ("add_cb", "remove_cb") and s[1] in METHOD_KINDS]
         if len(meth_ops) != len(set(meth_ops)):
             w.probe("bound_method_replaced_or_removed")
-        if meth_ops and spec.get("method_lookup") == "fresh":
+        fresh = spec.get("method_lookup") == "fresh"
+        if meth_ops and fresh:
             w.probe("bound_method_fresh_lookup")
-        for kind, tag in exp.items():
+        # ---- a callback that edits the callback set of its own task while the callbacks run: a function removed
+        # before it ran does not run any more, an added one runs, all the others run exactly once
+        edit_at = next((i for i, m in enumerate(cbs) if m["args"][1] == "edit" and m["args"][3] == "start"), None)
+        edit_ops = next((s[3] for s in reversed(steps[:n_exec]) if s[0] == "add_cb" and s[1] == "edit"), [])
+        edit_ran = "edit" in exp and edit_at is not None
+        exp2 = dict(exp)
+        removed_pending: set = set()
+        edit_changed = False
+        ops_sig = set()
+        if edit_ran:
+            w.probe("callback_edits_own_task")
+            ran_before = {m["args"][1] for m in cbs[:edit_at] if m["args"][3] == "start"}
+            for op in edit_ops:
+                if op[0] == "remove":
+                    target = op[1]
+                    if target in exp2:
+                        edit_changed = True
+                        ops_sig.add("remove")
+                        if target == "edit":
+                            w.probe("callback_removes_itself")
+                        elif target in ran_before:
+                            w.probe("callback_removes_finished_callback")
+                        else:
+                            w.probe("callback_removes_pending_callback")
+                            removed_pending.add(target)
+                            exp2.pop(target)
+                else:
+                    w.probe("callback_adds_callback")
+                    edit_changed = True
+                    ops_sig.add("add")
+                    exp2["late"] = op[2]
+            if not any(m["args"][1] == "edit" and m["args"][3] == "end" for m in cbs):
+                viol("C14.callback_set_edited_while_running", {"ops": "+".join(sorted(ops_sig)) or "none", "symptom": "edit_rejected"},
+                     f"p{tid}: the done callback cb_edit({edit_ops}) did not get to its end: task.add/remove_done_callback"
+                     f"(task.current_task(), ...) raised inside a done callback")
+        # ---- done callbacks given to this task by other runs (add_cb_to steps) while it was alive
+        f_regs = []
+        for gi, m in enumerate(obs["marks"]):
+            if m["args"][0] == "p" and m["args"][2] == "foreign" and m["kw"].get("target") == tid and label is not None:
+                adder = progs.get(m["args"][1])
+                if adder is None or m["args"][3] >= len(adder["steps"]):
+                    continue
+                done_ok = any(x["args"][:4] == ["p", m["args"][1], "post", m["args"][3]] and x["task"] == m["task"]
+                              for x in obs["marks"][gi:])
+                if done_ok:
+                    in_phase = any(ci < gi for ci, _ in cbs_at)
+                    f_regs.append((gi, m["kw"].get("state"), adder["steps"][m["args"][3]][2], in_phase))
+        f_runs = [(gi, m["args"][2]) for gi, m in cbs_at if m["args"][1] == "foreign" and m["args"][3] == "start"]
+        f_alive = [r for r in f_regs if r[1] == "alive"]
+        if f_alive:
+            w.probe("callback_added_by_other_task")
+        if any(r[3] for r in f_alive):
+            w.probe("callback_added_by_other_task_during_callbacks")
+            edit_changed = True
+            ops_sig.add("add_by_other_task")
+        if any(r[1] == "done" for r in f_regs):
+            w.probe("callback_added_to_finished_task")
+        ops_txt = "+".join(sorted(ops_sig))
+        repeated = {k for k in METHOD_KINDS if fresh and (
+            sum(1 for x in meth_ops if x == k) >= 2 or (edit_ran and any(op[0] == "remove" and op[1] == k for op in edit_ops)))}
+        if repeated:
+            w.probe("bound_method_fresh_lookup_repeated")
+
+        def cviol(cls, sig, detail, kind=None):
+            """A callback violation, named after the construct of this run that explains it (if there is one)."""
+            if kind in repeated:
+                viol("C14.bound_method_not_one_function", {"symptom": cls.split(".")[1]},
+                     detail + f" [the method of one instance, looked up afresh for every task.add/remove_done_callback: {meth_ops}]")
+            elif edit_changed:
+                viol("C14.callback_set_edited_while_running", {"ops": ops_txt, "symptom": cls.split(".")[1]},
+                     detail + f" [the task's callback set was changed while its callbacks ran: {ops_txt}; cb_edit ops "
+                              f"{edit_ops if edit_ran else None}, registrations by other runs {f_regs}]")
+            else:
+                viol(cls, sig, detail)
+
+        got_kinds = [k for k, _ in started]
+        for kind, tag in exp2.items():
             cnt = sum(1 for k, t in started if k == kind)
             if cnt == 1:
                 got_tag = next(t for k, t in started if k == kind)
                 if got_tag != tag:
-                    viol("C14.callback_args", {"kind": kind}, f"p{tid} callback cb_{kind} ran with {got_tag}, registered {tag}")
+                    cviol("C14.callback_args", {"kind": kind}, f"p{tid} callback cb_{kind} ran with {got_tag}, registered {tag}", kind)
             elif cnt == 0:
                 if cancel_in_cb:
                     continue  # don't-care: an earlier callback was interrupted by the cancellation
                 order = list(exp)
-                before = order[: order.index(kind)]
+                before = order[: order.index(kind)] if kind in order else order
                 pattern = "after_raising_callback" if "raise" in before else "other"
                 if pattern == "after_raising_callback":
                     w.probe("raising_callback_then_other")
-                viol("C14.callback_not_run", {"pattern": pattern, "victim": is_victim},
-                     f"p{tid} callback cb_{kind}({tag}) never ran; registered {exp}, ran {started}")
+                cviol("C14.callback_not_run", {"pattern": pattern, "victim": is_victim},
+                      f"p{tid} callback cb_{kind}({tag}) never ran; registered {exp2}, ran {started}", kind)
             else:
-                viol("C14.callback_ran_twice", {"kind": kind}, f"p{tid} callback cb_{kind} ran {cnt} times")
+                cviol("C14.callback_ran_twice", {"kind": kind}, f"p{tid} callback cb_{kind} ran {cnt} times: {started}", kind)
         # a callback keeps its arguments across a suspension of its own (whatever other callbacks run meanwhile)
         for m in cbs:
-            if m["args"][1] == "sleep" and m["args"][3] == "end":
-                began = [t for k, t in started if k == "sleep"]
+            if m["args"][1] in SUSP_CB and m["args"][3] == "end":
+                began = [t for k, t in started if k == m["args"][1]]
                 if began and m["args"][2] not in began:
-                    viol("C14.callback_args", {"kind": "sleep", "when": "after_its_suspension"},
-                         f"p{tid} callback cb_sleep was started with {began} but after its task.sleep() its argument "
-                         f"reads {m['args'][2]}")
-        for kind in sorted(set(got_kinds) - set(exp)):
-            viol("C14.callback_unexpected", {"kind": kind}, f"p{tid} callback cb_{kind} ran but was not registered/was removed: {exp}")
+                    viol("C14.callback_args", {"kind": m["args"][1], "when": "after_its_suspension"},
+                         f"p{tid} callback cb_{m['args'][1]} was started with {began} but after its suspension its "
+                         f"argument reads {m['args'][2]}")
+        for kind in sorted(set(got_kinds) - set(exp2)):
+            if kind in removed_pending:
+                cviol("C14.callback_unexpected", {"kind": kind, "removed_by": "callback"},
+                      f"p{tid} callback cb_{kind} ran although cb_edit had removed it before it ran: ran {started}", kind)
+            else:
+                cviol("C14.callback_unexpected", {"kind": kind},
+                      f"p{tid} callback cb_{kind} ran but was not registered/was removed: {exp2}", kind)
+        # given by another run while the task was alive: runs, with the arguments of the latest registration; a
+        # registration that comes when cb_foreign has already run (the task is still in its callbacks): open
+        if f_runs or f_alive:
+            first_run = f_runs[0][0] if f_runs else None
+            early = [r for r in f_alive if first_run is None or r[0] < first_run]
+            late = [r for r in f_alive if not (first_run is None or r[0] < first_run)]
+            if not early and f_runs:
+                cviol("C14.callback_unexpected", {"kind": "foreign"},
+                      f"cb_foreign ran in the task of p{tid} {f_runs} but no run had given it to that task while it was "
+                      f"alive: {f_regs}")
+            elif early and not f_runs:
+                if not cancel_in_cb:
+                    cviol("C14.callback_not_run", {"pattern": "added_by_other_task", "victim": is_victim},
+                          f"cb_foreign({early[-1][2]}), given to the live task of p{tid} by another run, never ran "
+                          f"(registrations (marker#, state, tag, target in its callbacks): {f_regs})")
+            elif early:
+                if f_runs[0][1] != early[-1][2]:
+                    cviol("C14.callback_args", {"kind": "foreign"},
+                          f"cb_foreign ran in the task of p{tid} with {f_runs[0][1]}, latest registration {early[-1][2]}")
+                if len(f_runs) > 1 + len(late):
+                    cviol("C14.callback_ran_twice", {"kind": "foreign"},
+                          f"cb_foreign ran {len(f_runs)} times in the task of p{tid}: {f_runs}, registrations {f_regs}")
+        # ---- the function returned: the task's result does not raise
+        # (or it cancelled itself: the task ends cancelled, not with an exception)
+        rtask = obs["task_of"].get(tid)
+        self_cancelled = natural_stop is not None and steps[natural_stop][0] == "cancel_self" and ("pre", natural_stop) in names
+        if (ended or self_cancelled) and not is_victim and rtask is not None and rtask.done() and not rtask.cancelled() \
+                and rtask.exception() is not None:
+            cviol("C14.result_raises", {"entry": prog["entry"], "after": "return" if ended else "cancel_self"},
+                  f"p{tid} ({prog['entry']}) {'returned' if ended else 'cancelled itself'}, but its task ended with the "
+                  f"exception {rtask.exception()!r}: task_id.result() raises that instead of "
+                  f"{'giving the function value' if ended else 'CancelledError'}")
+        elif edit_changed and not is_victim and natural_stop is not None and steps[natural_stop][0] == "raise" \
+                and rtask is not None and rtask.done() and not rtask.cancelled() and rtask.exception() is not None \
+                and not (isinstance(rtask.exception(), ValueError) and str(rtask.exception()) == "boom"):
+            # (what result() gives for a function that raised is not documented - but not an exception of another kind)
+            cviol("C14.result_raises", {"entry": prog["entry"], "after": "raise"},
+                  f"p{tid} ({prog['entry']}) raised ValueError('boom'), but its task ended with the exception "
+                  f"{rtask.exception()!r}")
     # ---- a child cancelled by its creator (possibly before its first step)
     kid = spec.get("kid")
     if kid:
@@ -1128,7 +1492,11 @@ def judge(scn: dict, obs: dict, base: dict | None, sub: str) -> list:
             elif want is not None and out_val != want and not (vic_ended and landed):
                 viol("C14.wait_outcome", {"want": want if isinstance(want, str) else "result"},
                      f"task.wait/result on the victim reported {out_val!r}, expected {want!r}")
-    return out
+    _overlap_probes(obs, w)
+    # a violation that names the construct behind it stands for the run: whatever else the run shows (an exception
+    # that reached Home Assistant, what a waiter saw) may be a consequence of it and is not reported next to it
+    primary = [v for v in out if v["class"] in PRIMARY_CLASSES]
+    return primary or out
 
 
 def run(scn: dict) -> dict:
@@ -1170,10 +1538,10 @@ def run(scn: dict) -> dict:
             scn_k = dict(scn, fault=dict(fault, iter=k))
             obs = execute(scn_k, k)
             n_points += 1
-            merge(obs)
             if obs["cancel"] and obs["cancel"]["done"] is False:
                 landed += 1
             vs = judge(scn_k, obs, base, sub)
+            merge(obs)  # (after the verdict: the reach probes counted while judging belong to this execution)
             if vs:
                 violations = vs
                 patch = {"fault": {"mode": "single", "via": fault["via"], "iter": k}}
